@@ -400,6 +400,11 @@ func exec(consumers bool) func(script []string, opt comp.Options) comp.Result {
 			case "settle":
 				comp.WaitQuiet(log, 2*time.Millisecond, 200*time.Millisecond)
 			case "quiesce":
+				// a goroutine still held at a gate would make the point meaningless (sub-scripts
+				// produced by the shrinker may have lost their opengate step)
+				for _, g := range gates {
+					g.Open()
+				}
 				comp.WaitQuiet(log, opt.Grace, 10*opt.Grace)
 				if log.NumPending() > 0 {
 					w.tags.Add("blocked-at-quiesce")
